@@ -1013,3 +1013,49 @@ class ParserQueueIterpoll(Contract):
 
     def ensures(self, h, cfg, a, r):
         return {'yields-all-in-order': list(r) == h.earlier, 'drained': pq_items(h) == []}
+
+
+# ====================================================================== construction: empty, idle, UNBOUNDED queues
+_NEW = Harness('''
+    def do(cls, data):
+        if data is None:
+            return cls()
+        return cls(data)
+''')
+
+
+@contract
+class FreshParser(Contract):
+    """every other parser/tokenizer contract starts from an object satisfying the representation invariant; this one proves
+    that the constructors establish it: idle tokenizer, empty queues - and queues WITHOUT a length bound (a bounded deque
+    silently drops the oldest message, which breaks 'pending() equals the number that can still be retrieved')"""
+    key = 'C05.fresh-parser'
+    target = 'mido.parser:Parser.__init__'
+    properties = ('C04', 'C05', 'C06', 'C18', 'C19')
+    configs = ({'cls': 'Parser', 'data': None}, {'cls': 'Tokenizer', 'data': None}, {'cls': 'Parser', 'data': 'clock'}, {'cls': 'Tokenizer', 'data': 'clock'})
+    raises = {}
+    symbolic_only = True
+
+    def callee(self, h, cfg):
+        return _NEW.get(h)
+
+    def inputs(self, h, cfg):
+        import mido.parser as P
+        import mido.tokenizer as T
+        cls = P.Parser if cfg['cls'] == 'Parser' else T.Tokenizer
+        return [cls, None if cfg['data'] is None else [0xF8]], {}
+
+    def ensures(self, h, cfg, a, r):
+        ra = attrs_of(r)
+        ta = attrs_of(ra['_tok']) if cfg['cls'] == 'Parser' else ra
+        tq = ta.get('_messages')
+        out = {'tokenizer-idle': ta.get('_status') == 0 and list(ta.get('_bytes', [None])) == [],
+               'tokenizer-queue-is-an-unbounded-deque': isinstance(tq, collections.deque) and tq.maxlen is None}
+        n = 0 if cfg['data'] is None else 1
+        if cfg['cls'] == 'Parser':
+            q = ra.get('messages')
+            out['message-queue-is-an-unbounded-deque'] = isinstance(q, collections.deque) and q.maxlen is None
+            out['holds-exactly-the-messages-of-the-data-given'] = isinstance(q, collections.deque) and len(q) == n and len(tq) == 0
+        else:
+            out['holds-exactly-the-tokens-of-the-data-given'] = len(tq) == n
+        return out
